@@ -395,9 +395,12 @@ func dumpChunk(file immutable.TSSPFile, order bool, sid uint64, series int, r *g
 	for _, rg := range d.Ranges {
 		cands = append(cands, rg[0]-1, rg[0], rg[0]+1, rg[1]-1, rg[1], rg[1]+1)
 	}
-	nr := 2
+	nr := 1 // one-segment chunks: 1-2 ranges; the segment logic of the readers needs chunks of several segments
+	if r.Chance(1, 3) {
+		nr = 2
+	}
 	if len(d.Ranges) >= 2 {
-		nr = 5
+		nr = 4
 	}
 	for k := 0; k < nr; k++ {
 		lo, hi := gen.Pick(r, cands), gen.Pick(r, cands)
